@@ -20,7 +20,7 @@ static std::vector<Json>& c14_table(){
   static std::vector<Json> tab;
   if(!tab.empty()) return tab;
   static const char* bin[]={"add","sub","icomm","acomm","evol","eprod","eop"};
-  for(int d1=2;d1<=6;d1++) for(int d2=2;d2<=6;d2++) if(d1!=d2) for(int variant=0;variant<2;variant++) for(int e=0;e<15;e++) for(int cat=0;cat<4;cat++){
+  for(int d1=2;d1<=6;d1++) for(int d2=2;d2<=6;d2++) if(d1!=d2) for(int variant=0;variant<2;variant++) for(int e=0;e<17;e++) for(int cat=0;cat<4;cat++){
     if(cat>0 && !(e<7)) continue;                       // operand value categories (lvalue / std::move) select different overloads of the expression entry points
     Json ops=Json::array();
     op_make(ops,0,d1,variant==1,0); op_fill(ops,0,d1*10+d2,6);
@@ -33,6 +33,7 @@ static std::vector<Json>& c14_table(){
     else if(e==10){ o["op"]="rotate_m"; o["a"]=0; o["d"]=d2; o["vs"]=5; }
     else if(e==13){ o["op"]="dot_expr"; o["a"]=0; o["b"]=1; o["i"]=(d1+d2)%3; }
     else if(e==14){ o["op"]="weighted"; o["a"]=0; o["b"]=1; o["vs"]=d1*7+d2; }
+    else if(e==15||e==16){ o["op"]="rotate_m"; o["a"]=0; o["d"]=e==15?d1:d2; o["c"]=e==15?d2:d1; o["vs"]=9; }   // non-square: rows or columns agree with the vector, the other extent does not
     else { o["op"]="stmt"; o["how"]=e==11?"=":"+="; o["expr"]="nested"; o["nest"]=e==11?10:11; o["t"]=2; o["a"]=0; o["b"]=1; o["ca"]=0; o["cb"]=0; o["x"]=0.5; o["flags"]=0; o["fn"]=0; }
     ops.push(o);
     tab.push_back(ops);
